@@ -49,7 +49,9 @@ def gen_perms(rng, tier, seed):
             for _ in range(rng.choice([0, 0, 1])):
                 n += 1
                 descs.append({'uuid': '%04X' % (0xF800 + n), 'perms': rng.randrange(256), 'value': _canary(n, rng.choice([8, 12, 30]))})
-            chars.append({'uuid': '%04X' % (0xF400 + n), 'props': 0x0A, 'perms': rng.randrange(256), 'value': _canary(n + 500, rng.choice([8, 10, 20, 30, 100, 300])),
+            # some characteristics of a service share their UUID (a Read By Type over the range then meets several of them)
+            cu = chars[-1]['uuid'] if chars and rng.random() < 0.3 else '%04X' % (0xF400 + n)
+            chars.append({'uuid': cu, 'props': 0x0A, 'perms': rng.randrange(256), 'value': _canary(n + 500, rng.choice([8, 10, 20, 30, 100, 300])),
                           'kind': rng.choice(['static', 'static', 'sync_cb', 'async_cb']), 'delay': rng.choice([0.0, 0.001]), 'descs': descs})
         db['services'].append({'uuid': '%04X' % (0xF300 + si), 'primary': True, 'includes': [], 'chars': chars})
     phases = ['plain']
@@ -203,6 +205,20 @@ def run_perms(case):
                 ):
                     rsp = ask(b, pdu)
                     leak_check(op.replace('_narrow', ''), rsp, link)
+                # ---- Read By Type over the whole range: when the FIRST attribute of that type is refused for a security reason,
+                # the answer is that refusal (Error Response naming it), not the attributes that follow
+                same = sorted((x for x in targets if x['kind'] == 'value' and gattdb.uuid_bytes_from_obj(x['attr'].type) == typ), key=lambda x: x['attr'].handle)
+                if len(same) > 1 and same[0] is t:
+                    # (an authentication requirement on an encrypted link is the known finding "LE encryption counts as authentication":
+                    #  it is reported by the single-attribute checks and left out here)
+                    sec = [w for w in rwhy if w != 'not-readable' and not (w == 'needs-authentication' and state['enc'])]
+                    if sec:
+                        rsp = ask(b, struct.pack('<BHH', 0x08, 1, 0xFFFF) + typ)
+                        sim.probe('read_by_type_over_several_attributes_first_refused')
+                        r = rsp[0] if rsp else b''
+                        if not (r[:1] == b'\x01' and len(r) >= 5 and r[1] == 0x08 and struct.unpack_from('<H', r, 2)[0] == h and r[4] in {ERR[w] for w in rwhy}):
+                            sim.violation_once(f'rbt-first:{sec[0]}', f'read_by_type:first-refused-attribute-not-reported:{sec[0]}',
+                                               f'first attribute of the type ({h:#06x}, permissions {perms:#04x}: {", ".join(rwhy)}) is refused, answer was {r[:8].hex()}')
                 # ---- find by type value with the exact value: a hit is a disclosure
                 val = cur(t)
                 if len(typ) == 2:
